@@ -15,6 +15,10 @@ func main() {
 	if err != nil {
 		panic(err)
 	}
+	if os.Getenv("CLEAN") != "" {
+		chk.DebugClean(p, os.Args[1:])
+		return
+	}
 	body := os.Getenv("BODY") != ""
 	chk.DebugEvents(p, os.Args[1:], body)
 }
